@@ -178,6 +178,7 @@ def run_case(ctx, idx, rng, tier):
         return boundary_pulse(rr, c, phase)
     g.pulse_fn = pulse_fn
     g.dmm_wf_fn = boundary_dmm_wf
+    g.motifs["dmm-twice"] = 0.6
     for _ in range(rng.randint(6, 30)):
         op = g.next_op()
         ev = r.step(op)
